@@ -151,6 +151,9 @@ func (c *CopyCommand) copyOneFile(srcRelPath, destRelPath string, tow io.Writer)
 		return err
 	})
 	if err := eg.Wait(); err != nil {
+		if destDB != nil {
+			destDB.Close()
+		}
 		return err
 	}
 	defer destDB.Close()
@@ -239,6 +242,7 @@ func openOrCreateCopyDestFile(filename string, srcHeader *whispertool.Header) (*
 		// NOTE: Sync header now because no sync is called later
 		// if source points are all empty.
 		if err := destDB.Sync(); err != nil {
+			destDB.Close()
 			return nil, err
 		}
 	}
